@@ -3,7 +3,8 @@ Model of the RESULTS LAYER of metric queries (C09), mirroring
 
   pkg/segment/results/mresults/tsid/tsidtracker.go : BulkAdd / BulkAddStar          (series-id string)
   pkg/segment/results/mresults/metricresults.go    : ExtractGroupByFieldsFromSeriesId (296-316),
-        GetSeriesIdWithoutFields (318-353), getAggSeriesId (361-380), ExtractMetricNameFromGroupID (705-712),
+        GetSeriesIdWithoutFields (318-353), getAggSeriesId (361-380), ExtractMetricNameFromGroupID (705-712, with the
+        pending repair c09-14: the name ends at the first "{"),
         DownsampleResults (139-191), AggregateResults (199-292), computeAggCount (1182-1232)
   pkg/segment/results/mresults/seriesresult.go     : InitSeriesHolder (avg → sum conversion), AddEntry
         (bucket = (ts / dsSeconds) * dsSeconds), Series.Downsample, reduceEntries (874-939),
@@ -87,8 +88,12 @@ def fieldValue (field sid : Str) : Option Str :=
 def extractPairs (fields : List Str) (sid : Str) : List Str :=
   fields.filterMap (fun f => (fieldValue f sid).map (fun v => f ++ cColon :: v))
 
-/-- ExtractMetricNameFromGroupID: `strings.Split(id, "{")`; exactly two parts → the first, else the whole id -/
-def metricNameOf (sid : Str) : Str :=
+/-- ExtractMetricNameFromGroupID (with the repair c09-14): the id up to its FIRST "{", the whole id without one -/
+def metricNameOf (sid : Str) : Str := sid.takeWhile (· != cBrace)
+
+/-- ExtractMetricNameFromGroupID BEFORE the repair: `strings.Split(id, "{")`; exactly two parts → the first, else the
+    whole id — with a "{" inside a label value the whole id was taken for the metric name -/
+def metricNameOfOld (sid : Str) : Str :=
   if sid.count cBrace = 1 then sid.takeWhile (· != cBrace) else sid
 
 /-- getAggSeriesId, `by` branch -/
@@ -134,13 +139,15 @@ def render (without : Bool) (name : Str) (key : Labels) : Str :=
 def isSep (c : Nat) : Bool := c == cComma || c == cColon || c == cBrace
 /-- no ',' ':' '{' inside (label names) -/
 def clean (s : Str) : Bool := s.all (fun c => !isSep c)
-/-- no ',' '{' inside (metric names and label values; ':' is harmless there) -/
+/-- no ',' '{' inside (metric names; ':' is harmless there) -/
 def cleanV (s : Str) : Bool := s.all (fun c => !(c == cComma || c == cBrace))
+/-- no ',' inside (label values; ':' is harmless there, and so is '{' since the repair c09-14) -/
+def cleanVal (s : Str) : Bool := s.all (fun c => !(c == cComma))
 
-/-- the metric name and the label values contain neither ',' nor '{', the label names contain none of
+/-- the metric name contains neither ',' nor '{', the label values contain no ',', the label names contain none of
 ',' ':' '{'.  Nothing is demanded of the grouping fields or of how label names relate to each other. -/
 def labelSafe (name : Str) (labels : Labels) : Bool :=
-  cleanV name && labels.all (fun kv => clean kv.1 && cleanV kv.2)
+  cleanV name && labels.all (fun kv => clean kv.1 && cleanVal kv.2)
 
 def LabelSafe (name : Str) (labels : Labels) : Prop := labelSafe name labels = true
 
